@@ -54,24 +54,37 @@ var c19CliSuffixes = []string{"", "SELECT 2 AS after;", "PRINT 'after'; COMMIT;"
 var c19CliFormats = [][]string{{"-f", "CSV"}, {"-f", "JSON"}, {"-f", "JSONL"}, {"-f", "LTSV"}, {"-f", "FIXED"}, {"-f", "TEXT"}, {"-f", "CSV", "-E", "SJIS"}, {"-f", "JSON", "-P"}}
 
 type c19CliCase struct {
-	Family string   `json:"family"`
-	Args   []string `json:"args"`
+	Family string            `json:"family"`
+	Args   []string          `json:"args"`
+	Tag    string            `json:"tag,omitempty"`   // names the family that built the case (part of the signature class)
+	Files  map[string]string `json:"files,omitempty"` // written next to t.csv
+	WaitS  int               `json:"wait_s,omitempty"` // seconds after which the process is looked at (default 60); the verdict is procx's: blocked, or CPU time used up
 }
 
 func c19CliOne(c *core.Ctx, dir string, k c19CliCase) {
 	drv.ClearDir(dir)
 	drv.WriteFiles(dir, map[string]string{"t.csv": "a,b\n1,x\n2,y\n"})
-	o := procx.Exec(procx.Run{Dir: dir, Args: k.Args, Timeout: 60 * time.Second})
-	c.Eval("cli-output|"+strings.Join(k.Args, " "), o.Exit != 0)
+	if len(k.Files) > 0 {
+		drv.WriteFiles(dir, k.Files)
+	}
+	wait := 60
+	if k.WaitS > 0 {
+		wait = k.WaitS
+	}
+	o := procx.Exec(procx.Run{Dir: dir, Args: k.Args, Timeout: time.Duration(wait) * time.Second})
+	c.Eval("cli-output|"+k.Tag+"|"+strings.Join(k.Args, " "), o.Exit != 0)
 	cls := strings.Join(k.Args[:len(k.Args)-1], " ")
 	if i := strings.Index(cls, " -o "); i >= 0 {
 		cls = cls[:i] + " -o"
 	}
+	if k.Tag != "" {
+		cls = k.Tag + ":" + cls
+	}
 	all := o.Stdout + o.Stderr
 	switch {
 	case o.Killed && o.CPU < 5*time.Second:
-		c.Violate("cli-output:deadlock:"+cls, fmt.Sprintf("csvq %q did not end within 60 s and used %v of CPU time: it waits for something that cannot happen\nstdout: %s\nstderr: %s", k.Args, o.CPU, clip(o.Stdout), clip(o.Stderr)), k)
-	case o.Killed && o.CPU > 45*time.Second:
+		c.Violate("cli-output:deadlock:"+cls, fmt.Sprintf("csvq %q did not end within %d s, every thread blocked, and used %v of CPU time: it waits for something that cannot happen\nstdout: %s\nstderr: %s", k.Args, wait, o.CPU, clip(o.Stdout), clip(o.Stderr)), k)
+	case o.Killed && o.CPU > time.Duration(wait)*time.Second*3/4:
 		c.Violate("cli-output:runaway:"+cls, fmt.Sprintf("csvq %q did not end within 60 s (CPU time %v)", k.Args, o.CPU), k)
 	case o.Killed:
 		c.Incomplete("family cli-output: a process was killed after 60 s with an ambiguous CPU time (machine load?); not judged")
@@ -102,6 +115,9 @@ func c19CliOne(c *core.Ctx, dir string, k c19CliCase) {
 }
 
 func c19CliRun(c *core.Ctx) {
+	if c19ExtOff(c, "cli-output") {
+		return
+	}
 	dir := core.Scratch("c19cli")
 	var idx int64
 	for pi, pre := range c19CliPrefixes {
